@@ -26,6 +26,13 @@ pub fn check_snapshot_consistency(snapshot: &Snapshot<u64>) -> Check {
         ensure!(store.contains_key(id), "C05", "C05/charge-without-entry", "a weight is charged under id {} for key {} but the store holds no such entry: the capacity can never be released (store: {:?})", id, key, store);
     }
     ensure!(sum == snapshot.weight_used as i128, "C05", "C05/sum-mismatch", "total weight used {} != sum of charged weights {}", snapshot.weight_used, sum);
+    // at quiescence every delete has been applied: an entry that is still marked deleted reads as absent for ever, yet
+    // it refuses every put of its key (KeyAlreadyExists) and keeps its weight
+    for entry in &snapshot.store {
+        if entry.soft_deleted {
+            return Err(Failure::new("C04", "C04/conc/marked-deleted-at-quiescence", format!("key {} (id {}) is still held and marked deleted although every command has been acknowledged: it reads as absent, cannot be put again and keeps its weight", entry.key, entry.id)).with_also(vec!["C07".to_string(), "C05".to_string()]));
+        }
+    }
     ensure!(snapshot.weight_used >= 0 && snapshot.weight_used <= snapshot.max_weight, "C01", "C01/conc-quiescent/out-of-bounds", "total weight used {} outside [0, {}] at quiescence", snapshot.weight_used, snapshot.max_weight);
     Ok(())
 }
